@@ -2,7 +2,7 @@
     spec/OMap.v (vocabulary: spec/OMapObs.v) and transferred to the pointer
     model (vocabulary: model/IMapObs.v) through [imap_step_sim]. *)
 From Coq Require Import List ZArith Arith Bool Lia Sorted.
-From GL Require Import lib.IMapBase model.IMap model.Chain spec.OMap spec.OMapObs model.IMapObs
+From GL Require Import lib.IMapBase model.IMap model.Chain spec.OMap spec.OMapObs model.IMapObs model.legacy.IMapLegacy
   proofs.C10_Assoc proofs.C10_Cells proofs.C10_Next proofs.C10_R2 proofs.C10_ChainSim
   proofs.C10_Heap proofs.C10_L1 proofs.C10_Repr proofs.C10_Main.
 Import ListNotations.
@@ -453,4 +453,78 @@ Proof.
     destruct (added_prefix h1 (ONext i :: t)) as (r & Hr). rewrite Hr, nth_error_app1, He; [reflexivity|].
     apply nth_error_Some. congruence.
   - destruct (stamp_ret h1 j) as [s|]; [destruct (nth_error (added h1) s)|]; reflexivity.
+Qed.
+
+(** * The statements about what the pointer model's iterators return *)
+
+(* in insertion order, never the same Add twice *)
+Theorem imap_iter_in_order_once : forall ch h1 h2 i p,
+  wf_hist (h1 ++ h2) -> pos_of h1 i = Some p -> ~ In (OClose i) h2 ->
+  exists stamps, StronglySorted lt stamps /\ NoDup stamps /\
+    map Some (i_rets ch i h1 h2) = map (nth_error (added (h1 ++ h2))) stamps.
+Proof.
+  intros ch h1 h2 i p Hwf Hp Hnc. exists (returned i h1 h2).
+  destruct (iter_in_order_once h1 h2 i p Hwf Hp Hnc) as [H1 H2]. split; [exact H1|]. split; [exact H2|].
+  apply rets_stamps. exact Hwf.
+Qed.
+
+(* an entry the iterator has passed and that is still live has been returned *)
+Theorem imap_iter_complete : forall ch h1 h2 i p p' j,
+  wf_hist (h1 ++ h2) -> pos_of h1 i = Some p -> ~ In (OClose i) h2 -> pos_of (h1 ++ h2) i = Some p' ->
+  (p <= j < p')%nat -> live_at (h1 ++ h2) j = true ->
+  exists e, nth_error (added (h1 ++ h2)) j = Some e /\ In e (i_rets ch i h1 h2).
+Proof.
+  intros ch h1 h2 i p p' j Hwf Hp Hnc Hp' Hj Hl.
+  destruct (iter_complete h1 h2 i p p' j Hwf Hp Hnc Hp' Hj Hl) as [Hin _].
+  apply (in_map (nth_error (added (h1 ++ h2)))) in Hin. rewrite <- (rets_stamps ch i h2 h1 Hwf) in Hin.
+  apply in_map_iff in Hin. destruct Hin as (e & He & Hin). exists e. auto.
+Qed.
+
+(* an entry added under an open iterator and still live has been returned, or lies ahead of it *)
+Theorem imap_iter_sees_added : forall ch h1 k v h2 i p,
+  wf_hist (h1 ++ OAdd k v :: h2) -> pos_of h1 i = Some p -> ~ In (OClose i) h2 ->
+  alookup k (live_kv h1) = None ->
+  let j := length (added h1) in
+  let h := h1 ++ OAdd k v :: h2 in
+  nth_error (added h) j = Some (k, v) /\
+  (live_at h j = true ->
+     In (k, v) (i_rets ch i h1 (OAdd k v :: h2)) \/
+     (exists j', stamp_ret h i = Some j' /\ (j' <= j)%nat)).
+Proof.
+  intros ch h1 k v h2 i p Hwf Hp Hnc Hnew j h.
+  destruct (iter_sees_added h1 k v h2 i p Hwf Hp Hnc Hnew) as [H1 H2]. fold j h in H1, H2.
+  split; [exact H1|]. intros Hl. destruct (H2 Hl) as [Hin|Hahead]; [left|right; exact Hahead].
+  apply (in_map (nth_error (added h))) in Hin. unfold h in Hin at 2. rewrite <- (rets_stamps ch i _ h1 Hwf) in Hin.
+  apply in_map_iff in Hin. destruct Hin as (e & He & Hin). fold h in He. rewrite H1 in He. injection He as ->. exact Hin.
+Qed.
+
+(** * D1: closing an iterator -- also one parked on a removed entry -- leaves the map usable *)
+
+Theorem close_leaves_usable : forall ch h i, wf_hist (h ++ [OClose i]) ->
+  let h' := h ++ [OClose i] in
+  i_answer ch h (OClose i) = OutUnit /\ live_kv h' = live_kv h /\
+  (forall k, i_answer ch h' (OGet k) = OutGet (alookup k (live_kv h))) /\
+  i_answer ch h' OLen = OutLen (length (live_kv h)) /\
+  i_answer ch h' OFirst = OutFirst (option_map fst (hd_error (live_kv h))) /\
+  (forall i', ~ In i' (onames (ostate h')) ->
+     i_answer ch (h' ++ [ONewIter i']) (ONext i') = OutNext (hd_error (live_kv h))).
+Proof.
+  intros ch h i Hwf h'.
+  assert (Hkv : live_kv h' = live_kv h) by (unfold h', live_kv; rewrite fold_left_app; reflexivity).
+  split.
+  - rewrite answer_refines by exact Hwf. apply wf_snoc in Hwf. destruct Hwf as [_ Hok]. cbn [op_ok] in Hok.
+    destruct (alookup_some_in i _ Hok) as (p & Hp). unfold o_answer. cbn [o_step]. rewrite Hp. reflexivity.
+  - split; [exact Hkv|]. destruct (get_len_exact ch h' Hwf) as (Hg & Hl & _).
+    destruct (first_is_oldest_live ch h' Hwf) as (Hf & Hn). rewrite Hkv in *.
+    split; [exact Hg|]. split; [exact Hl|]. split; [exact Hf|]. intros i' Hi'. apply (Hn i' Hi').
+Qed.
+
+(** * The pre-fix release (D1) *)
+
+Lemma legacy_imap_refuted :
+  exists h, wf_hist h /\ In OutPanic (run_imap_legacy always_fresh h) /\ ~ In OutPanic (run_omap h).
+Proof.
+  exists d1_witness. split; [reflexivity|]. split.
+  - vm_compute. tauto.
+  - vm_compute. intuition discriminate.
 Qed.
